@@ -10,7 +10,7 @@ from .. import env, refmath
 
 ID = "C02"
 LEVEL = "exploration"
-BUDGET = {"quick": 4000, "thorough": 240000}
+BUDGET = {"quick": 2400, "thorough": 240000}
 SHARDS = {"quick": 8, "thorough": 16}
 RULE = (
     "case = (namespace, float width, N in [2,400], three generated log-density vectors "
@@ -236,6 +236,19 @@ def run_case(case, ctx):
     # rejection sampling against a generator the harness can replay
     u = np.random.default_rng(case["rej_seed"]).uniform(size=n)
     R = S.rejection_sample(rng=np.random.default_rng(case["rej_seed"]))
+    # drawing from a weighted set is a read-only operation: the set (and a parent it was sliced from) must be unchanged afterwards
+    after = env.to_np(S.log_w).astype(np.float64)
+    if not np.array_equal(after, slw, equal_nan=True):
+        ctx.fail("rejection:mutates-set", f"rejection_sample changed the stored log_w of the set it was called on (max change "
+                                          f"{float(np.nanmax(np.abs(np.where(np.isfinite(after - slw), after - slw, 0)))):.3g})", case)
+    if n > 2:
+        sub = S[0:n - 1]
+        sub.rejection_sample(rng=np.random.default_rng(case["rej_seed"] + 1))
+        if not np.array_equal(env.to_np(S.log_w).astype(np.float64), slw, equal_nan=True):
+            ctx.fail("rejection:mutates-parent", "rejection_sample on a slice changed the log_w of the parent set", case)
+    lz_after = _f(S.log_evidence)
+    if not (lz_after == base["lz"] or (math.isnan(lz_after) and math.isnan(base["lz"]))):
+        ctx.fail("rejection:mutates-set", "rejection_sample changed the stored log_evidence", case)
     with np.errstate(all="ignore"):
         margin = (slw - float(np.max(slw))) - np.log(u)
     amb = np.abs(margin) <= 8 * eps * (np.abs(np.log(u)) + 1)
